@@ -1,36 +1,54 @@
 /-
-Go-semantics layer: synchronisation skeletons (DESIGN.md §4, "T-gen", `gen-sync` (b)).
+Go-semantics layer: synchronisation skeletons in normal form (DESIGN.md §4, "T-gen",
+`gen-sync` (b)).
 
-A skeleton is the ordered list of the sync-relevant AST events of one Go function, in
-evaluation order, with nesting expressed by bracket tokens (`select … endSelect`,
-`loop … endLoop`, `ifBegin … elseBegin … endIf`, `switchBegin … endSwitch`,
-`deferFunc … endFunc`, `funcLit … endFunc`).  The translator `/verif/gen/syncskel.go`
-re-emits the skeletons of the functions listed in its table from `/repo`'s working tree on
-every run (`Gen/SyncSkel.lean`); each hand-written transition system keeps the skeleton it
-was written against (`Model/CxxSkel.lean`), and `theorem skel_X : Gen.X = Expected.X := by
-decide` makes any edit of the synchronisation structure a broken obligation.
+A skeleton is the *event graph* of one entry point: a finite, deterministic labelled
+transition system whose edges are the synchronisation-relevant events of the function — with
+every function of the same package it calls inlined — in Go's evaluation order, on every
+control path.  The translator `/verif/gen/syncskel.go` re-emits the graphs of the entry points
+listed in its table from `/repo`'s working tree on every run (`Gen/SyncSkel.lean`); each
+hand-written transition system keeps the graph it was written against (`Model/CxxSkel.lean`),
+and `theorem skel_X : Gen.X = Expected.X := by decide` makes any edit of the synchronisation
+structure a broken obligation.
 
-The type is flat (no nested inductive) so that `DecidableEq` is derived and `decide`
-evaluates in the kernel.  Expressions (conditions, channel operands, results) are the
-source text as printed by go/printer with white space collapsed.
+The graph is a NORMAL FORM: ε-steps are contracted, bisimilar states are identified, a
+condition whose two arms lead to the same state is dropped, states are numbered breadth-first
+from the entry (state `0`) with edges sorted by label.  It therefore does not change under
+rewrites that leave the order of events on every path and the choices offered at every point
+unchanged (if/else vs. early return / `continue`, switch vs. if-chain, order of select cases,
+loop rotation, extracting or inlining helpers, renaming, statements that are not events).
+What is an event, how values are described without names (`recv.<chan unit>`, `After()`,
+`New().1`, `range backward recv.services`) and what is normalised is documented at the top of
+`gen/syncskel.go`.
+
+`Graph` is a list of adjacency lists, so `DecidableEq` is structural and `decide` evaluates in
+the kernel.
 -/
 
 namespace GolibsVerif.Skel
 
-inductive Tok where
-  /-- header: receiver type (`""` for a plain function) and name -/
-  | fn (recv name : String)
-  /-- call of a tracked function or method, by its (selector) name; emitted after the
-  events of its arguments -/
+inductive Lbl where
+  /-- a dynamic call (a method of an interface value, by its name; a function value, by its
+  description, e.g. `New().1` for the `cancel` returned by `New`) or a static call into another
+  package that is not known to be free of synchronisation (`WithTimeout`, `Mutex.Lock`);
+  emitted after the events of its operands -/
   | call (name : String)
-  /-- `go f(…)`; `name` is the callee's (selector) name, `"func"` for a literal (whose body
-  follows between `funcLit`/`endFunc`) -/
+  /-- `go f(…)` of a dynamic / external callee -/
   | goCall (name : String)
-  /-- `defer f(…)` of a named callee -/
+  /-- `go` of a function literal or of a function of the same package: its body follows,
+  closed by `endFunc` -/
+  | goFunc
+  /-- `defer f(…)` of a dynamic / external callee (registration; runs when the enclosing
+  frame returns, last registered first) -/
   | deferCall (name : String)
-  /-- `defer func() { … }()`; the body follows, closed by `endFunc` -/
+  /-- `defer` of a function literal or of a function of the same package: the body of the
+  deferred frame follows, closed by `endFunc` -/
   | deferFunc
-  /-- a function literal that is not directly deferred; the body follows -/
+  /-- an inlined call whose body registers a defer or calls `recover()`: the body follows,
+  closed by `endFunc`.  (Inlined calls without defer / recover leave no trace.) -/
+  | frame
+  /-- a function literal (or method value of the same package) that escapes as a value; the
+  body follows, closed by `endFunc` -/
   | funcLit
   | endFunc
   /-- `<-ch` outside a select case head -/
@@ -41,40 +59,54 @@ inductive Tok where
   | close (ch : String)
   /-- `make(chan T, cap)`; `cap = ""` for an unbuffered channel -/
   | makeChan (cap : String)
+  /-- entering a `select`; the target state offers one `case…` edge per case.  The events of
+  evaluating the channel operands precede it, as Go evaluates all of them on entry -/
   | select
-  /-- `case … <-ch:`; the events of evaluating `ch` precede the `select` token, as Go
-  evaluates all channel operands on entry -/
   | caseRecv (ch : String)
   | caseSend (ch : String)
   | caseDefault
-  | endSelect
-  /-- `for` loop: kind is `"for"` (no condition), `"for-cond"` or `"range"`; `head` is the
-  printed condition / range operand -/
-  | loop (kind head : String)
-  | endLoop
-  | ifBegin (cond : String)
-  | elseBegin
-  | endIf
-  | switchBegin (tag : String)
-  /-- `case e₁, e₂, …:` of an expression switch; `[]` is `default:` -/
-  | caseExprs (exprs : List String)
-  | endSwitch
-  /-- `return e₁, …` (printed results, `""` for a bare return) -/
-  | ret (results : String)
-  | brk
-  | cont
-  /-- assignment to a named result of the enclosing function -/
-  | assignResult (lhs rhs : String)
+  /-- a residual condition `c` (canonical description) evaluating to `val`; a state has
+  either exactly the two `cond c true` / `cond c false` edges or none.  Loops over a slice
+  appear as `cond "range backward s"` / `cond "range forward s"` (`true` = there is a next
+  element) -/
+  | cond (c : String) (val : Bool)
+  /-- return of the ENTRY POINT; `val` is `"true"` / `"false"` for a function with a single
+  boolean result, `""` otherwise -/
+  | ret (val : String)
   /-- `panic(…)` -/
   | panic
   /-- `recover()` -/
   | recover
-  /-- emitted by the translator in place of a skeleton it could not produce (function
-  missing or defined twice, construct outside the subset); never part of an expected
-  skeleton, so the corresponding `skel_…` obligation breaks -/
+  /-- emitted by the translator in place of a graph it could not produce (function missing,
+  construct outside the subset); never part of an expected graph, so the corresponding
+  `skel_…` obligation breaks -/
   | untranslatable (why : String)
   deriving DecidableEq, Repr
 
-abbrev Skeleton := List Tok
+/-- state `i` is the `i`-th entry: its outgoing edges (label, target state) -/
+abbrev Graph := List (List (Lbl × Nat))
+
+/-- the edges of a state (none for a state outside the graph) -/
+def Graph.edges (g : Graph) (n : Nat) : List (Lbl × Nat) := g.getD n []
+
+/-- `accepts g silent fuel n ls`: from state `n` there is a path (of fewer than `fuel` edges)
+on which the labels `ls` occur in this order, every other label on it being `silent`: a silent
+label may be skipped, any other label must be the next expected one. -/
+def accepts (g : Graph) (silent : Lbl → Bool) : Nat → Nat → List Lbl → Bool
+  | 0, _, _ => false
+  | _ + 1, _, [] => true
+  | fuel + 1, n, l :: ls =>
+    (g.edges n).any fun e =>
+      (e.1 == l && accepts g silent fuel e.2 ls) || (silent e.1 && accepts g silent fuel e.2 (l :: ls))
+
+/-- as `accepts`, and after the last expected label a terminal state (the function has
+returned) is reached through silent labels only -/
+def acceptsEnd (g : Graph) (silent : Lbl → Bool) : Nat → Nat → List Lbl → Bool
+  | 0, _, _ => false
+  | fuel + 1, n, [] =>
+    (g.edges n).isEmpty || (g.edges n).any fun e => silent e.1 && acceptsEnd g silent fuel e.2 []
+  | fuel + 1, n, l :: ls =>
+    (g.edges n).any fun e =>
+      (e.1 == l && acceptsEnd g silent fuel e.2 ls) || (silent e.1 && acceptsEnd g silent fuel e.2 (l :: ls))
 
 end GolibsVerif.Skel
